@@ -67,10 +67,13 @@ def _eq_case(seed, i):
     if promotable and rng.random() < 0.4:
         # how either side was built must not matter: a mutable bitstring built earlier from an equal operand and then changed in
         # place (a memoised or shared store would carry the change into later promotions of the same operand)
-        twin = rng.choice([BitArray, BitStream])(make())
-        if len(twin):
-            twin.invert()
-        twin.append('0b1')
+        try:
+            twin = rng.choice([BitArray, BitStream])(make())
+            if len(twin):
+                twin.invert()
+            twin.append('0b1')
+        except Exception as ex:
+            return False, f"a mutable bitstring cannot be built from a {kind} denoting {t!r}: {type(ex).__name__}: {ex}"
         history = ' (after a mutable bitstring built from an equal operand was inverted and appended to)'
     want = promotable and s == t
     desc = f"{cls.__name__}(bin={s!r}) ==/!= {kind} denoting {t!r}{history}"
